@@ -1,0 +1,41 @@
+//go:build verif
+
+package pdf
+
+import (
+	"bytes"
+	"sort"
+)
+
+// VerifParseObjects parses a sequence of PDF objects using the (unexported)
+// scanner.  The data is read as the body of an array, so that references
+// of the form "a b R" are recognised.
+//
+// This function only exists when the "verif" build tag is set.
+func VerifParseObjects(data []byte) ([]Object, error) {
+	buf := make([]byte, 0, len(data)+2)
+	buf = append(buf, data...)
+	buf = append(buf, ' ', ']')
+	s := newScanner(bytes.NewReader(buf), nil, nil)
+	arr, err := s.ReadArray()
+	if err != nil {
+		return nil, err
+	}
+	return []Object(arr), nil
+}
+
+// VerifReferences returns the references of all in-use entries of the
+// cross-reference table, in increasing order of object number.
+//
+// This function only exists when the "verif" build tag is set.
+func (r *Reader) VerifReferences() []Reference {
+	var res []Reference
+	for num, entry := range r.xref {
+		if entry.IsFree() {
+			continue
+		}
+		res = append(res, NewReference(num, entry.Generation))
+	}
+	sort.Slice(res, func(i, j int) bool { return res[i] < res[j] })
+	return res
+}
